@@ -35,16 +35,25 @@ def type_atoms(tdef):
     """[(atom index(1-based), resid, resname, atomname)], bonds [(i,j)]"""
     atoms, bonds, first = [], [], {}
     idx = 0
+    intra = tdef.get("intra")     # optional {atom name: [bonded atom names]} shared by all residues: bonds by name, not by listing order
     for r, (resname, names) in enumerate(tdef["res"]):
         prev = None
+        byname = {}
         for an in names:
             idx += 1
             atoms.append((idx, r + 1, resname, an))
-            if prev is not None:
-                bonds.append((prev, idx))
-            else:
+            byname[an] = idx
+            if prev is None:
                 first[r] = idx
+            elif not intra or not set(names) & set(intra):
+                bonds.append((prev, idx))
             prev = idx
+        if intra and set(names) & set(intra):
+            first[r] = byname[tdef.get("anchor", names[0])] if tdef.get("anchor") in byname else first[r]
+            for a, others in intra.items():
+                for b in others:
+                    if a in byname and b in byname:
+                        bonds.append((byname[a], byname[b]))
     for a, b in tdef["edges"]:
         bonds.append((first[a], first[b]))
     return atoms, bonds
